@@ -106,15 +106,23 @@ def container_annotated(tag):
     return has(tag, 'array') or has(tag, 'element-type')
 
 
+# a length option names a field of the enclosing compound or a parameter of the enclosing callable; anywhere else (e.g.
+# a field of a class, which is not an ast.Compound) the lookup raises AttributeError, which _apply_annotations_field swallows
+LENGTH_SITE_OK = ("implies(annotations['array'].get('length'), (isinstance(parent, ast.Compound) and isinstance(node, ast.Field)) or "
+                  "(isinstance(parent, ast.Callable) and not isinstance(node, ast.Field)))")
+contract(MT + '_check_array_element_type',
+         params={'self': 'MainTransformer', 'array': 'Array', 'annotations': 'Annotations'}, trusted=True,
+         modifies=['LOGGER._warning_count'], ensures={'count_monotone': 'LOGGER._warning_count >= old(LOGGER._warning_count)'},
+         note='warns about element types that a GPtrArray / GByteArray cannot hold; membership tests over tables of Type objects')
 contract(MT + '_adjust_container_type',
          params={'self': 'MainTransformer', 'parent': 'Node', 'node': 'Parameter|Return|Field', 'annotations': 'Annotations'},
-         trusted=True,
+         props=('C01',), requires=['node.type is not None', "implies('array' in annotations, %s)" % LENGTH_SITE_OK],
          modifies=['node.type', '*.direction', '*.transfer', '*.element_type', '*.key_type', '*.value_type',
                    'LOGGER._warning_count'],
-         raises={'KeyError': 'maybe', 'SystemExit': 'maybe'},
+         raises={'KeyError': 'True', 'SystemExit': 'True', 'AssertionError': 'True', 'ValueError': 'True'},
          ensures={
-             'direction_kept': 'node.direction == old(node.direction)',
-             'transfer_kept': "node.transfer == old(node.transfer) or 'array' in annotations",
+             'direction_kept': 'implies(not isinstance(node, ast.Field), node.direction == old(node.direction))',
+             'transfer_kept': "implies(not isinstance(node, ast.Field), node.transfer == old(node.transfer) or 'array' in annotations)",
              'type_kept_without_array': "implies('array' not in annotations, node.type is old(node.type))",
              'noop_without_container_annotation': "implies('array' not in annotations and 'element-type' not in annotations "
                                                   "and not isinstance(old(node.type), ast.Array), "
@@ -140,14 +148,14 @@ def expected_caller_allocates(self, node, tag):
 
 
 contract(MT + '_apply_annotations_param_ret_common',
-         params={'self': 'MainTransformer', 'parent': 'Node', 'node': 'Parameter|Return', 'tag': 'GtkDocParameter|GtkDocTag?'},
+         params={'self': 'MainTransformer', 'parent': 'Callable', 'node': 'Parameter|Return', 'tag': 'GtkDocParameter|GtkDocTag?'},
          props=('C01', 'C02'), chunks=4,
-         requires=[CTYPE_OK],
+         requires=[CTYPE_OK, 'node.type is not None'],
          modifies=['node.type', 'node.direction', 'node.caller_allocates', 'node.nullable', 'node.not_nullable',
                    'node.optional', 'node.skip', 'node.doc', 'node.doc_position', 'node.attributes{}',
                    '*.transfer', '*.direction', '*.element_type', '*.key_type', '*.value_type',
                    'LOGGER._warning_count'],
-         raises={'KeyError': 'True', 'AssertionError': 'True', 'SystemExit': 'True'},
+         raises={'KeyError': 'True', 'AssertionError': 'True', 'SystemExit': 'True', 'ValueError': 'True'},
          loops={1: {'invariant': ['node.skip == (old(node.skip) or has(tag, "skip"))',
                                   'LOGGER._warning_count >= old(LOGGER._warning_count)'],
                     'modifies': ['node.attributes{}']}},
@@ -260,10 +268,13 @@ def is_decimal(s):
 
 ARR_APPLIED = "isinstance(node.type, ast.Array) and node.type is not old(node.type)"
 contract(MT + '_apply_annotations_array',
-         params={'self': 'MainTransformer', 'parent': 'Callable|Compound', 'node': 'Parameter|Return|Field',
+         params={'self': 'MainTransformer', 'parent': 'Node', 'node': 'Parameter|Return|Field',
                  'annotations': 'Annotations'},
-         props=('C01',), requires=["'array' in annotations", 'node.type is not None',
-                                   'isinstance(parent, ast.Compound) == isinstance(node, ast.Field)'],
+         props=('C01',), requires=["'array' in annotations", 'node.type is not None', LENGTH_SITE_OK],
+         casts=[('paramname = self._get_validate_field_name(parent, length, node)', 'parent', 'Compound'),
+                ('paramname = self._get_validate_field_name(parent, length, node)', 'node', 'Field'),
+                ('paramname = self._get_validate_parameter_name(parent, length, node)', 'parent', 'Callable'),
+                ('paramname = self._get_validate_parameter_name(parent, length, node)', 'node', 'Parameter|Return')],
          let={'opts': "annotations['array']"},
          modifies=['node.type', '*.direction', '*.transfer', 'LOGGER._warning_count'],
          raises={'KeyError': 'True', 'SystemExit': 'True', 'AssertionError': 'True', 'ValueError': 'True'},
@@ -291,4 +302,117 @@ contract(MT + '_apply_annotations_array',
              'C01.array.container_kind_kept': "implies(" + ARR_APPLIED + " and isinstance(old(node.type), ast.Array), "
                                               "node.type.array_type == old(node.type.array_type))",
              'C01.array.own_direction_kept': 'implies(not isinstance(node, ast.Field), node.direction == old(node.direction))',
+             'C01.array.type_replaced_or_kept': "isinstance(node.type, ast.Array) and node.type is not old(node.type) or node.type is old(node.type)",
+             'C01.array.count_only_grows': 'LOGGER._warning_count >= old(LOGGER._warning_count)',
+         })
+
+
+# ------------------------------------------------------------------------------------------------
+# (scope) / (destroy) / (closure) on callback parameters of functions, and (closure) inside callback types
+def target_node(self, p):
+    return self._transformer.resolve_aliases(self._transformer.lookup_typenode(p.type))
+
+
+def is_callback_param(self, p):
+    return isinstance(target_node(self, p), ast.Callback)
+
+
+def one_option(tag, name):
+    """the single option of annotation `name` on the tag, or None"""
+    if tag is None or name not in tag.annotations:
+        return None
+    opts = tag.annotations[name]
+    if opts and len(opts) == 1:
+        return opts[0]
+    return None
+
+
+def n_callback_only_annotations(tag):
+    if tag is None:
+        return 0
+    return (1 if 'scope' in tag.annotations else 0) + (1 if 'destroy' in tag.annotations else 0) + \
+        (1 if 'closure' in tag.annotations else 0)
+
+
+contract(MT + '_apply_annotations_param_callback',
+         params={'self': 'MainTransformer', 'parent': 'Function|VFunction', 'param': 'Parameter', 'tag': 'GtkDocParameter?'},
+         props=('C01',),
+         modifies=['*.scope', 'param.destroy_name', 'param.closure_name', 'LOGGER._warning_count'],
+         raises={'KeyError': 'True', 'SystemExit': 'True', 'ValueError': 'True'},
+         let={'is_cb': 'is_callback_param(self, param)'},
+         ensures={
+             'C01.callback.invalid_on_non_callbacks_warns_and_changes_nothing':
+                 "implies(not is_cb, param.scope == old(param.scope) and param.destroy_name == old(param.destroy_name) and "
+                 "param.closure_name == old(param.closure_name) and "
+                 "LOGGER._warning_count == old(LOGGER._warning_count) + n_callback_only_annotations(tag))",
+             'C01.callback.scope_as_written':
+                 "implies(is_cb and one_option(tag, 'scope') is not None and one_option(tag, 'destroy') is None, "
+                 "param.scope == one_option(tag, 'scope'))",
+             'C01.callback.destroy_as_written':
+                 "implies(is_cb and one_option(tag, 'destroy') is not None, param.destroy_name == one_option(tag, 'destroy') "
+                 "and param.scope == 'notified' and parent.get_parameter(one_option(tag, 'destroy')).scope == 'notified')",
+             'C01.callback.closure_as_written':
+                 "implies(is_cb and one_option(tag, 'closure') is not None, param.closure_name == one_option(tag, 'closure'))",
+             'C01.callback.untouched_without_annotation':
+                 "implies(one_option(tag, 'scope') is None and one_option(tag, 'destroy') is None, param.scope == old(param.scope)) and "
+                 "implies(one_option(tag, 'destroy') is None, param.destroy_name == old(param.destroy_name)) and "
+                 "implies(one_option(tag, 'closure') is None, param.closure_name == old(param.closure_name))",
+             'C01.callback.valid_annotations_are_quiet':
+                 "implies(is_cb and one_option(tag, 'closure') is None, LOGGER._warning_count == old(LOGGER._warning_count))",
+         })
+
+
+contract(MT + '_apply_annotations_param_closure',
+         params={'self': 'MainTransformer', 'parent': 'Callback', 'param': 'Parameter', 'tag': 'GtkDocParameter?'},
+         props=('C01',), modifies=['param.closure_name', 'LOGGER._warning_count'], raises={'KeyError': 'True'},
+         ensures={
+             'C01.closure.marks_itself_as_user_data':
+                 "implies(has(tag, 'closure') and len(tag.annotations['closure']) == 0, param.closure_name == param.argname)",
+             'C01.closure.with_argument_is_rejected':
+                 "implies(has(tag, 'closure') and len(tag.annotations['closure']) != 0, param.closure_name == old(param.closure_name) "
+                 "and LOGGER._warning_count == old(LOGGER._warning_count) + 1)",
+             'C01.closure.absent_is_noop':
+                 "implies(not has(tag, 'closure'), param.closure_name == old(param.closure_name) and "
+                 "LOGGER._warning_count == old(LOGGER._warning_count))",
+             'C01.closure.only_on_untyped_pointers':
+                 "implies(has(tag, 'closure') and len(tag.annotations['closure']) == 0 and param.type.target_giname is None and "
+                 "param.type.target_fundamental == 'gpointer', LOGGER._warning_count == old(LOGGER._warning_count))",
+         })
+
+
+# the type a type string was resolved to: ghost attribute of the types that _resolve creates (assumed)
+def resolved_from(t):
+    return getattr(t, '_givc_resolved_from', None)
+
+
+contract('contracts.py.c01_param_annotations.resolved_from', params={'t': 'Type?'}, returns='str?', pure_keys=['t'], trusted=True)
+from givc.contracts import REGISTRY as _REG   # noqa
+_REG.get(MT + '_resolve').ensures['names_the_written_type'] = 'resolved_from(result) == type_str'
+
+ET = "annotations.get('element-type')"
+contract(MT + '_apply_annotations_element_type',
+         params={'self': 'MainTransformer', 'parent': 'Node', 'node': 'Parameter|Return|Field', 'annotations': 'Annotations'},
+         props=('C01',), requires=['node.type is not None'],
+         modifies=['node.type.element_type', 'node.type.key_type', 'node.type.value_type', 'LOGGER._warning_count'],
+         raises={'KeyError': 'True'},
+         let={'opts': ET, 'ty': 'node.type'},
+         ensures={
+             'C01.element_type.count_only_grows': 'LOGGER._warning_count >= old(LOGGER._warning_count)',
+             'C01.element_type.absent_is_noop': "implies(opts is None, LOGGER._warning_count == old(LOGGER._warning_count))",
+             'C01.element_type.container_object_kept': 'node.type is ty',
+             'C01.element_type.list_or_array_element':
+                 "implies(opts is not None and isinstance(ty, (ast.List, ast.Array)) and len(opts) == 1, "
+                 "resolved_from(ty.element_type) == opts[0])",
+             'C01.element_type.map_key_and_value':
+                 "implies(opts is not None and isinstance(ty, ast.Map) and len(opts) == 2, "
+                 "resolved_from(ty.key_type) == opts[0] and resolved_from(ty.value_type) == opts[1])",
+             'C01.element_type.wrong_number_of_options_warns_and_changes_nothing':
+                 "implies(opts is not None and ((isinstance(ty, (ast.List, ast.Array)) and len(opts) != 1) or "
+                 "(isinstance(ty, ast.Map) and len(opts) != 2)), "
+                 "LOGGER._warning_count == old(LOGGER._warning_count) + 1 and "
+                 "implies(isinstance(ty, (ast.List, ast.Array)), ty.element_type is old(ty.element_type)) and "
+                 "implies(isinstance(ty, ast.Map), ty.key_type is old(ty.key_type) and ty.value_type is old(ty.value_type)))",
+             'C01.element_type.not_a_container_warns':
+                 "implies(opts is not None and not isinstance(ty, (ast.List, ast.Array, ast.Map)), "
+                 "LOGGER._warning_count == old(LOGGER._warning_count) + 1)",
          })
